@@ -95,8 +95,16 @@ func init() {
 		"func (v Number) JQValueLength() any {\n\t// length of a number is its absolute value\n\tswitch vv := v.V.(type) {",
 		"func (v Number) JQValueLength() any { return v.V }\nfunc (v Number) jqValueLengthUnused() any {\n\tswitch vv := v.V.(type) {", "Number.Length")
 	add("c08-nullsem-length-nonzero", "C08.nullsem", T,
-		"func (v Null) JQValueLength() any                  { return 0 }",
-		"func (v Null) JQValueLength() any                  { return 1 }", "Null.Length")
+		"func (v Null) JQValueLength() any { return 0 }",
+		"func (v Null) JQValueLength() any { return 1 }", "Null.Length")
+	add("c08-pure-bigint-abs-in-place", "C08.pure", T,
+		"return new(big.Int).Abs(vv)", "return vv.Abs(vv)", "Number).JQValueLength")
+	add("c08-pure-delete-from-payload-map", "C08.pure", T,
+		"func (v Object) JQValueKey(name string) any { return v[name] }",
+		"func (v Object) JQValueKey(name string) any { r := v[name]; delete(v, name); return r }", "Object).JQValueKey")
+	add("c08-layer-extkey-fast-path", "C08.layer", D,
+		"func (v StructDecodeValue) JQValueKey(name string) any {\n\treturn valueOrFallbackKey(",
+		"func (v StructDecodeValue) JQValueKey(name string) any {\n\tif bv := v.decodeValueBase.JQValueKey(name); bv != nil {\n\t\treturn bv\n\t}\n\treturn valueOrFallbackKey(", "returns:StructDecodeValue.JQValueKey")
 	add("c08-tovalue-default-not-reconverted", "C08.tovalue", V,
 		"\t\treturn ToGoJQValueFn(nv, valueFn)\n",
 		"\t\treturn nv, nil\n", "default")
